@@ -334,7 +334,8 @@ def files(rep, lib, cg):
         if rfc and rfc[0].bb in blocks:
             drv = loop_driver(go, blocks, h)
             tys = [iter_type(c) for c in drv]
-            if tys and all(t and t.startswith("std::vec::IntoIter<std::path::PathBuf") for t in tys):
+            if tys and all(t and (t.startswith("std::vec::IntoIter<std::path::PathBuf")
+                                  or t.startswith("std::slice::Iter<'_, std::path::PathBuf")) for t in tys):
                 src = Prov(go, LOOKX + ("Clone>::clone", "IntoIterator>::into_iter")).origins(drv[0].args[0])
                 okorder = any(a[0] == "arg" and a[1] == 1 for a in src)
     if okorder:
@@ -470,7 +471,7 @@ def location(rep, lib):
 
 def run(ctx, rep):
     lib = ctx.lib
-    c16.raw_io(rep, lib)
+    c16.raw_io(rep, lib, side="input")
     c16.eof_distinct(rep, lib)
     counters(rep, lib)
     constructor(rep, lib)
